@@ -79,6 +79,21 @@ def implStep (toks : List String) : Option String :=
   | ["u256_cmp", a, b] => do
     let a ← u256 a; let b ← u256 b
     pure s!"OK {Impl.Limb.u256_cmp a b}"
+  | ["s9u256", "add", a, b] => do
+    let a ← u256 a; let b ← u256 b
+    let (r, c) := Impl.Limb.u256_add a b
+    pure s!"OK {hexU r} {if c then 1 else 0}"
+  | ["s9u256", "sub", a, b] => do
+    let a ← u256 a; let b ← u256 b
+    let (r, c) := Impl.Limb.u256_sub a b
+    pure s!"OK {hexU r} {if c then 1 else 0}"
+  | ["s9u256", "mul", a, b] => do
+    let a ← u256 a; let b ← u256 b
+    let r := Impl.Limb.u256_mul a b
+    pure s!"OK {hexU r.hi}{hexU r.lo}"
+  | ["s9u256", "cmp", a, b] => do
+    let a ← u256 a; let b ← u256 b
+    pure s!"OK {Impl.Limb.u256_cmp a b}"
   -- field ops run at the limb level (the Nat-exact layer is proved equal in Proofs.Limb)
   | ["fp_mont_mul", a, b] => do let a ← u256 a; let b ← u256 b; pure ("OK " ++ hexU (Impl.SM2.L.fp_mul a b))
   | ["fp_add", a, b] => do let a ← u256 a; let b ← u256 b; pure ("OK " ++ hexU (Impl.SM2.L.fp_add a b))
@@ -288,6 +303,18 @@ def specStep (toks : List String) : Option String :=
     let a ← nat32 a; let b ← nat32 b
     pure ("OK " ++ hexOfBytes (natBE 64 (a * b)))
   | ["u256_cmp", a, b] => do
+    let a ← nat32 a; let b ← nat32 b
+    pure s!"OK {if a > b then (1 : Int) else if a < b then -1 else 0}"
+  | ["s9u256", "add", a, b] => do
+    let a ← nat32 a; let b ← nat32 b
+    pure s!"OK {hex32 ((a + b) % 2 ^ 256)} {(a + b) / 2 ^ 256}"
+  | ["s9u256", "sub", a, b] => do
+    let a ← nat32 a; let b ← nat32 b
+    pure s!"OK {hex32 ((a + 2 ^ 256 - b) % 2 ^ 256)} {if a < b then 1 else 0}"
+  | ["s9u256", "mul", a, b] => do
+    let a ← nat32 a; let b ← nat32 b
+    pure ("OK " ++ hexOfBytes (natBE 64 (a * b)))
+  | ["s9u256", "cmp", a, b] => do
     let a ← nat32 a; let b ← nat32 b
     pure s!"OK {if a > b then (1 : Int) else if a < b then -1 else 0}"
   | ["fp_mont_mul", a, b] => do
